@@ -21,36 +21,43 @@ RUN_PROFILES = {
     "hostile_append": dict(params=1.0, mutate="append", w={"count": 4, "parloop": 2, "call": 3}),
     "hostile_clear": dict(params=1.0, mutate="clear", w={"count": 4, "parloop": 2, "call": 3}),
     "hostile_replace": dict(params=1.0, mutate="replace", w={"count": 4, "parloop": 2, "call": 3}),
+    # completions of OTHER pending services sent from inside notifications
+    "react": dict(react=0.3, imm=0.1, w={"parallel": 3, "call": 3}),
+    "react_loops": dict(react=0.25, imm=0.2, w={"parallel": 2, "count": 2, "while": 1, "cond": 2}),
+    "react_parloop": dict(react=0.25, imm=0.0, w={"parloop": 3, "parallel": 2, "call": 2}, params=0.5),
+    "react_junk": dict(react=0.25, junk=0.3, w={"parallel": 3}),
+    "react_all": dict(react=0.3, react_all=True, imm=0.1, w={"parallel": 3, "call": 3}),
     "observers": dict(observers=0.35, imm=0.0),
     "listeners": dict(listeners=0.4, imm=0.0),
 }
 
 PROPS = {
     "C01": dict(kind="run", proj="P_C01", mon="mon_C01",
-                profiles=["default", "imm", "sync", "loops", "parallel", "parloop"],
-                quick=240, thorough=6000),
+                profiles=["default", "imm", "sync", "loops", "parallel", "parloop", "react", "react_loops"],
+                quick=240, thorough=6000, finding_profiles=["react_all"]),
     "C02": dict(kind="run", proj="P_seq", mon="mon_true",
-                profiles=["blocks", "default", "imm", "loops"], quick=240, thorough=6000),
+                profiles=["blocks", "default", "imm", "loops", "react_loops"], quick=240, thorough=6000),
     "C03": dict(kind="run", proj="P_set", mon="mon_true",
-                profiles=["parallel", "parloop"], quick=240, thorough=6000),
+                profiles=["parallel", "parloop", "react"], quick=240, thorough=6000),
     "C04": dict(kind="run", proj="P_C04", mon="mon_true",
                 profiles=["cond", "default"], quick=240, thorough=6000),
     "C05": dict(kind="run", proj="P_seq", mon="mon_true",
                 profiles=["loops"], quick=240, thorough=6000),
     "C06": dict(kind="run", proj="P_set", mon="mon_true",
-                profiles=["parloop"], quick=240, thorough=6000, all_shapes_profile="parloop_all"),
-    "C07": dict(kind="run", proj="P_ids", mon="holds_C07",
-                profiles=["default", "imm", "parallel", "loops", "parloop"], quick=240, thorough=6000),
-    "C08": dict(kind="run", proj="P_C08", mon="holds_C08",
-                profiles=["junk"], quick=240, thorough=6000),
-    "C14": dict(kind="run", proj="P_ids", mon="holds_C14",
-                profiles=["uuid", "loops", "parloop", "parallel"], quick=240, thorough=6000),
+                profiles=["parloop", "react_parloop"], quick=240, thorough=6000, finding_profiles=["parloop_all"]),
+    "C07": dict(kind="run", proj="P_ids", mon="mon_C07",
+                profiles=["default", "imm", "parallel", "loops", "parloop", "react", "react_loops"], quick=240, thorough=6000,
+                finding_profiles=["react_all"]),
+    "C08": dict(kind="run", proj="P_C08", mon="mon_C08",
+                profiles=["junk", "react_junk", "react"], quick=240, thorough=6000),
+    "C14": dict(kind="run", proj="P_ids", mon="mon_C14",
+                profiles=["uuid", "loops", "parloop", "parallel", "react_loops"], quick=240, thorough=6000),
     "C15": dict(kind="run", proj="P_C15", mon="mon_true",
                 profiles=["params", "hostile_append", "hostile_clear", "hostile_replace"],
                 quick=240, thorough=6000),
-    "C17": dict(kind="run", proj="P_C17", mon="holds_C17",
+    "C17": dict(kind="run", proj="P_C17", mon="mon_C17",
                 profiles=["observers"], quick=200, thorough=5000),
-    "C20": dict(kind="run", proj="P_C20", mon="holds_C20",
+    "C20": dict(kind="run", proj="P_C20", mon="mon_C20",
                 profiles=["listeners"], quick=200, thorough=5000),
     "C13": dict(kind="expr", quick=600, thorough=20000),
 }
